@@ -28,6 +28,10 @@ func init() {
 				Doc: "The three computations use the same notions of 'this route matches this URL' and 'this service is responsible'; drift between them is invisible to per-feature fixtures."},
 			{ID: "C17.e", Template: "T-EFFECT", Required: true, Run: ruleC17e,
 				Doc: "computeAllowedMethods and what it calls store nothing: a memo invalidated on Add/Remove but not on Route/RemoveRoute makes the OPTIONS answer stale."},
+			{ID: "C17.f", Template: "T-SIBLING", Required: true, Run: ruleLiteralEncoding,
+				Doc: "computeAllowedMethods runs the compiled path expressions against the decoded URL.Path while the default router compares template tokens: the expressions must be compiled from the template literals unchanged (same obligations as C02.l), or OPTIONS announces nothing for a routable URL whose template has a character an escaper rewrites."},
+			{ID: "C17.g", Template: "T-SIBLING", Required: true, Run: ruleServiceListAgreement,
+				Doc: "The accessor through which computeAllowedMethods reads the services reads the same Container field the dispatcher hands to the router. A separately maintained snapshot that Remove (or Add) does not refresh makes OPTIONS announce methods of services that are gone."},
 		},
 	})
 }
